@@ -228,6 +228,20 @@ def native_tracker_probe(rp, opname, has_rid, has_rt):
     real["cmd"] = cmd
     if "panic" in real:
         return "panics: %s" % real["panic"], real
+    if opname in ("IAdd", "Constant"):
+        # a value of a type whose width has no literal encoding (12 bits): the literal that depends on it is unsupported, and
+        # of a 16-bit type: one word
+        for width, want2 in ((12, "TypeUnsupported"), (16, "LiteralBit32")):
+            decl = le(4 << 16 | 21) + le(1) + le(width) + le(0)
+            inst_ = (le(5 << 16 | 128) + le(1) + le(2) + le(3) + le(4)) if opname == "IAdd" else None
+            if inst_ is None:
+                continue
+            cmd2 = "parse_script %s C" % (c03.HEADER + decl + inst_ + sw32(2))
+            r2 = rp.ask(cmd2)
+            r2["cmd"] = cmd2
+            got = str(r2.get("result")) + " " + str((r2.get("events") or [""])[-2:])
+            if "panic" in r2 or want2 not in got:
+                return "OpSwitch on the result of an OpIAdd of a %d-bit integer type: %s (expected %s)" % (width, got[:200], want2), r2
     last = (real.get("events") or [""])[-2] if real.get("result") == "Ok" and len(real.get("events", [])) >= 2 else ""
     if real.get("result") != "Ok" or want not in last:
         return "the literal after Op%s is not read as %s: result %s, last instruction %r" % (opname, want, real.get("result"), last), real
